@@ -27,6 +27,7 @@ EXPLANATION = (
     " Added after seed round 8: E11 consult registers the line table of a file before it loads the file."
     " Added after seed round 9: E12 in the problog_export family no constructor value is derived from an argument list that a subclass constructor replaces afterwards (positive example matched on every run)."
     " Added from a seeding agent's remarks about the clean tree (both fired there and are repaired): E13 an entry point that resolves a goal with get_builtin and evaluates it with self.execute supplies a call_origin, because builtins subscript kwdargs['call_origin'] without a test; E14 order comparisons of compute_value results are attempted under a TypeError handler."
+    " Added after seed round 11: E15 round()/int() of a local produced by float(<text>) sits behind math.isfinite() or handlers for OverflowError and ValueError (fired on the pinned tree: atom_number(inf, X); repaired); E16 a constant index into a local result list is covered by the function's own length tests, folded for the lengths 0..k."
 )
 TECHNIQUE = "static analysis: import resolution, exception-flow over resolved call graph, handler-coverage tables"
 
@@ -1143,11 +1144,19 @@ def rule_e14(repo, col):
     under a handler for it"""
     mod = repo.module("problog.engine_builtin")
     n = 0
+    # operand helpers: module functions that return compute_value results (possibly as a pair)
+    helpers = {h.name for h in mod.functions.values() if any(isinstance(r, ast.Return) and r.value is not None and (
+        any(isinstance(x, ast.Call) and isinstance(x.func, ast.Attribute) and x.func.attr == "compute_value" for x in ast.walk(r.value)) or any(
+            isinstance(a, ast.Assign) and isinstance(a.value, ast.Call) and isinstance(a.value.func, ast.Attribute) and a.value.func.attr == "compute_value"
+            and any(isinstance(t, ast.Name) and t.id in {y.id for y in ast.walk(r.value) if isinstance(y, ast.Name)} for t in a.targets) for a in ast.walk(h.node)))
+        for r in ast.walk(h.node))}
     for f in mod.functions.values():
         vals = set()
         for st in ast.walk(f.node):
-            if isinstance(st, ast.Assign) and isinstance(st.value, ast.Call) and isinstance(st.value.func, ast.Attribute) and st.value.func.attr == "compute_value":
-                vals |= {t.id for t in st.targets if isinstance(t, ast.Name)}
+            if isinstance(st, ast.Assign) and isinstance(st.value, ast.Call) and ((isinstance(st.value.func, ast.Attribute) and st.value.func.attr == "compute_value") or (
+                    isinstance(st.value.func, ast.Name) and st.value.func.id in helpers and st.value.func.id != f.name)):
+                for t in st.targets:
+                    vals |= {y.id for y in ast.walk(t) if isinstance(y, ast.Name)}
         parents = None
         for c in ast.walk(f.node):
             if not (isinstance(c, ast.Compare) and any(isinstance(o, (ast.Lt, ast.LtE, ast.Gt, ast.GtE)) for o in c.ops)):
@@ -1170,6 +1179,94 @@ def rule_e14(repo, col):
                        "%s compares computed values with `%s` outside any TypeError handler: a string constant computes to a Python str, so `\"abc\" > 1` ends in TypeError: '>' not supported "
                        "between instances of 'str' and 'int' instead of a ProbLog error" % (f.name, norm(c)), construct="%s: unguarded order comparison of computed values" % f.name, function=f.name)
     col.floor("E14.comparisons", n, 4)
+
+
+def rule_e15(repo, col):
+    """float(<text>) accepts 'inf' and 'nan'; round() and int() of such a value raise OverflowError / ValueError (CPython table).  In the builtin implementations every round()/int()
+    of a local that was produced by float(..) is attempted under handlers for both classes or behind a math.isfinite() test of that local."""
+    mod = repo.module("problog.engine_builtin")
+    parents = mod.parents()
+    n = 0
+    for f in mod.functions.values():
+        floats = set()
+        for st in walk_no_nested(f.node):
+            if isinstance(st, ast.Assign) and isinstance(st.value, ast.Call) and isinstance(st.value.func, ast.Name) and st.value.func.id == "float" and len(st.value.args) == 1 \
+                    and not isinstance(st.value.args[0], ast.Constant):
+                floats |= {t.id for t in st.targets if isinstance(t, ast.Name)}
+        if not floats:
+            continue
+        for c in walk_no_nested(f.node):
+            if not (isinstance(c, ast.Call) and isinstance(c.func, ast.Name) and c.func.id in ("round", "int") and len(c.args) >= 1 and isinstance(c.args[0], ast.Name) and c.args[0].id in floats):
+                continue
+            v = c.args[0].id
+            n += 1
+            finite = "math.isfinite(%s)" % v
+            guarded = False
+            cur, prev = parents.get(c), c
+            while cur is not None and cur is not f.node:
+                if isinstance(cur, ast.BoolOp) and isinstance(cur.op, ast.And):
+                    idx = [i for i, x in enumerate(cur.values) if x is prev]
+                    if idx and any(norm(x) == finite for x in cur.values[:idx[0]]):
+                        guarded = True
+                if isinstance(cur, (ast.If, ast.IfExp)):
+                    in_body = (prev in cur.body) if isinstance(cur, ast.If) else (prev is cur.body)
+                    tests = cur.test.values if isinstance(cur.test, ast.BoolOp) and isinstance(cur.test.op, ast.And) else [cur.test]
+                    if in_body and any(norm(x) == finite for x in tests):
+                        guarded = True
+                if isinstance(cur, ast.Try) and any(prev is b for b in cur.body):
+                    caught = set()
+                    for h in cur.handlers:
+                        caught |= set(norm(e) for e in handler_class_exprs(h)) if h.type is not None else {"BaseException"}
+                    if caught & {"Exception", "BaseException"} or ({"OverflowError", "ValueError"} <= caught) or ({"ArithmeticError", "ValueError"} <= caught):
+                        guarded = True
+                prev, cur = cur, parents.get(cur)
+            col.decide("E15", mod, c, guarded, "%s: %s of a float() result is guarded against inf / nan" % (f.name, norm(c)),
+                       "%s calls %s on the result of float(<text>) with no math.isfinite() test and no handler for OverflowError and ValueError: float('inf') and float('nan') are accepted, "
+                       "round(inf) is an OverflowError and round(nan) a ValueError - `atom_number(inf, X)` ends in OverflowError: cannot convert float infinity to integer"
+                       % (f.name, norm(c)), construct="%s: %s(..) of a float() result" % (f.name, c.func.id), function=f.name)
+    col.floor("E15.conversions", n, 2)
+
+
+def rule_e16(repo, col):
+    """a function that tests len(X) of a local result list and then reads X[k] for a constant k: the length tests that leave the function (raise / return) must cover every
+    length 0..k - a guard weakened from `!= 1` to `> 1` lets the empty result through to X[0] (IndexError)"""
+    from .. import dtable
+
+    n = 0
+    for f in repo.all_functions():
+        if f.module.name not in ("problog.clausedb", "problog.engine", "problog.engine_stack", "problog.engine_builtin", "problog.program", "problog.extern"):
+            continue
+        body = f.node.body
+        for i, st in enumerate(body):
+            for x in ast.walk(st):
+                if not (isinstance(x, ast.Subscript) and isinstance(x.value, ast.Name) and isinstance(x.ctx, ast.Load) and isinstance(x.slice, ast.Constant)
+                        and isinstance(x.slice.value, int) and not isinstance(x.slice.value, bool) and x.slice.value >= 0):
+                    continue
+                name, k = x.value.id, x.slice.value
+                lsrc = "len(%s)" % name
+                guards = [g for g in body[:i] if isinstance(g, ast.If) and not g.orelse and g.body and isinstance(g.body[-1], (ast.Raise, ast.Return)) and lsrc in norm(g.test)]
+                if not guards:
+                    continue
+                # the list must not be re-bound between the guards and the read
+                if any(isinstance(a, ast.Assign) and any(isinstance(t, ast.Name) and t.id == name for t in a.targets) for g in body[body.index(guards[0]):i] for a in ast.walk(g)):
+                    continue
+                n += 1
+                open_len = []
+                for ln in range(0, k + 1):
+                    vals = [dtable.eval_atom(norm(g.test), [(lsrc, ln)], default=None) for g in guards]
+                    if any(v is None for v in vals):
+                        open_len = None
+                        break
+                    if not any(vals):
+                        open_len.append(ln)
+                if open_len is None:
+                    continue  # the guards also depend on something else: no verdict from this rule
+                col.decide("E16", f.module, x, not open_len, "%s: %s is read only for lengths the guards let through (> %d)" % (f.qualname, norm(x), k),
+                           "%s reads %s although its own length tests (%s) let a list of length %s through: IndexError instead of the error the guard reports "
+                           "(a Prolog-defined semiring function without an answer: `list index out of range` instead of InvalidValue)"
+                           % (f.qualname, norm(x), "; ".join(norm(g.test) for g in guards), ", ".join(map(str, open_len))),
+                           construct="%s: %s after a length test that admits a shorter list" % (f.qualname, norm(x)), function=f.qualname)
+    col.floor("E16.guarded_reads", n, 1)
 
 
 def run(repo, col):
@@ -1201,3 +1298,7 @@ def run(repo, col):
     rule_e13(repo, col)
     col.rule("E14", "order comparisons of computed values are attempted under a TypeError handler")
     rule_e14(repo, col)
+    col.rule("E15", "round()/int() of a float(<text>) result is guarded against inf and nan")
+    rule_e15(repo, col)
+    col.rule("E16", "a constant index into a result list is covered by the function's own length tests")
+    rule_e16(repo, col)
